@@ -139,6 +139,17 @@ fn location_stream(rep: &mut Report, runner: &mut Runner, tier: &str, seed: u64)
                     k += 1;
                     line.push_str(&format!("let zp{} = \"{}\" ", k, r.pick(&texts)));
                 }
+                if r.chance(1, 5) {
+                    // a string literal that spans two lines (a raw newline between the quotes): what follows it is on the next
+                    // line, at the column after the closing quote
+                    k += 1;
+                    rep.count("location-stream:multi-line-string-literal");
+                    line.push_str(&format!("let zm{} = \"{}", k, r.pick(&["x", "", "h\u{e9}"])));
+                    text.push_str(&line);
+                    text.push('\n');
+                    line_no += 1;
+                    line = format!("{}\" ", r.pick(&["y", "", "\u{65e5}\u{672c}"]));
+                }
                 if nodes.len() >= 1 && r.chance(1, 3) {
                     let a = r.pick(&nodes).0.clone();
                     let b = r.pick(&nodes).0.clone();
